@@ -173,6 +173,14 @@ SCRIPTS = {
                           "s": [W(1, 300, g=("rx", 0, 600)), W(1, 300, g=("rx", 0, 1200)),
                                 W(1, 300, g=("rx", 0, 1500)),
                                 {"op": "ku", "g": ("rx", 0, 1800)}, W(1, 300, True, g=("rx", 0, 1800))]},
+    # the same, spread over seconds: a datagram delayed past the PTO (or a late copy) lands in the quiet interval
+    # between two updates, when the keys of the phase before are long gone
+    "key_update_spaced": {"c": [W(0, 600), {"op": "ku", "g": ("rx", 1, 300)}, W(0, 600, g=("rx", 1, 300)),
+                                {"op": "ku", "g": ("t", 2.0)}, W(0, 300, g=("t", 2.0)),
+                                W(0, 300, g=("rx", 1, 900)), W(0, 0, True, g=("rx", 1, 1200))],
+                          "s": [W(1, 300, g=("rx", 0, 600)), W(1, 300, g=("rx", 0, 1200)),
+                                W(1, 300, g=("rx", 0, 1500)),
+                                {"op": "ku", "g": ("rx", 0, 1800)}, W(1, 300, True, g=("rx", 0, 1800))]},
     "reset_racing": {"c": [W(0, 2500), {"op": "reset", "sid": 0}, W(4, 100, True)]},
     "stop_sending": {"c": [W(0, 2500)], "s": [{"op": "stop", "sid": 0, "g": ("rx", 0, 1)}, W(1, 50, True)]},
     "cid_change_mid": {"c": [W(0, 1500), {"op": "cid"}, W(0, 1500, True)], "s": [{"op": "cid", "g": ("rx", 0, 1)}, W(0, 800, True)]},
@@ -210,7 +218,7 @@ def factory(scenario):
         cfg["tickets"] = netsim.obtain_tickets({k: v for k, v in cfg.items() if k in ("version", "chain", "retry")})
     return cfg, script, [_MON], {"max_steps": scenario.get("max_steps", 400),
                                  "deviations": tuple(scenario.get("dev", ("drop", "dup", "dupmid", "delay",
-                                                                          "rebind", "late")))}, goal
+                                                                          "rebind", "late", "hold")))}, goal
 
 
 netcheck.register("c01", factory)
